@@ -210,3 +210,11 @@ Example C04_checker_rejects_the_old_defect :
 Proof. split; vm_compute; reflexivity. Qed.
 Example C04_translation : map (shiftf (-1)) [mk 1 0 0 1 0; mk 1 0 0 1 1] = [mk 1 0 0 1 (-2); mk 1 0 0 1 (-1)].
 Proof. vm_compute. reflexivity. Qed.
+
+(* ---- tie to the source by regeneration (DESIGN.md 4.2): ExtendedSpatialID.Higher translated from /repo's current source is ZoomCore.higher ---- *)
+From SIDGen Require Generated.
+From SID Require GenTac GenEqHigher.
+Theorem C04_generated_Higher_is_the_model : forall h x y v f hd vd,
+  Generated.ExtendedSpatialID_Higher h x y v f hd vd = GenTac.eid_tuple (ZoomCore.higher (Ids.mk h x y v f) hd vd).
+Proof. exact GenEqHigher.gen_ExtendedSpatialID_Higher_eq. Qed.
+Print Assumptions C04_generated_Higher_is_the_model.
